@@ -561,6 +561,7 @@ func init() {
 		c05Profiles(e)
 		c05Rollback(e)
 		c05Selector(e)
+		c05Controller(e)
 	}
 }
 
@@ -926,4 +927,145 @@ func c05Selector(e *ext) {
 		e.fail("ReservationInfo.MatchOwners not found")
 	}
 	fmt.Fprintf(&e.out, "def matchOwnersGate : String := %s\n", leanStr(gate))
+}
+
+// owner controller references + the nomination drop after Reserve (round 8):
+//   * util/reservation.MatchReservationControllerReference: what the loop ranges over, the conjuncts of the guard inside
+//     the loop (parameters #i, the range value $, pointer dereferences kept), what the guard's body and the function's
+//     last statement return;
+//   * frameworkExtenderImpl.RunReservePluginsReserve: the guard under which the pod's nomination is dropped after the
+//     Reserve plugins ran (it must not depend on the Reserve status).
+func c05CtlExpr(x ast.Expr, params map[string]int, loopVar string) string {
+	switch v := x.(type) {
+	case *ast.ParenExpr:
+		return c05CtlExpr(v.X, params, loopVar)
+	case *ast.BinaryExpr:
+		return "(" + c05CtlExpr(v.X, params, loopVar) + " " + v.Op.String() + " " + c05CtlExpr(v.Y, params, loopVar) + ")"
+	case *ast.UnaryExpr:
+		return v.Op.String() + c05CtlExpr(v.X, params, loopVar)
+	case *ast.StarExpr:
+		return "*" + c05CtlExpr(v.X, params, loopVar)
+	case *ast.SelectorExpr:
+		return c05CtlExpr(v.X, params, loopVar) + "." + v.Sel.Name
+	case *ast.CallExpr:
+		args := make([]string, len(v.Args))
+		for i, a := range v.Args {
+			args[i] = c05CtlExpr(a, params, loopVar)
+		}
+		name := "?"
+		switch f := v.Fun.(type) {
+		case *ast.Ident:
+			name = f.Name
+		case *ast.SelectorExpr:
+			name = f.Sel.Name
+		}
+		return name + "(" + strings.Join(args, ",") + ")"
+	case *ast.BasicLit:
+		return v.Value
+	case *ast.Ident:
+		if v.Name == "nil" || v.Name == "true" || v.Name == "false" {
+			return v.Name
+		}
+		if v.Name == loopVar {
+			return "$"
+		}
+		if i, ok := params[v.Name]; ok {
+			return fmt.Sprintf("#%d", i)
+		}
+		return "_"
+	}
+	return "?"
+}
+
+func c05Conjuncts(x ast.Expr) []ast.Expr {
+	if b, ok := x.(*ast.BinaryExpr); ok && b.Op == token.LAND {
+		return append(c05Conjuncts(b.X), c05Conjuncts(b.Y)...)
+	}
+	return []ast.Expr{x}
+}
+
+func c05Controller(e *ext) {
+	var guard, frame []string
+	if fd := e.funcDecl("pkg/util/reservation", "", "MatchReservationControllerReference"); fd != nil && fd.Body != nil {
+		params := c05Params(fd)
+		for _, st := range fd.Body.List {
+			switch v := st.(type) {
+			case *ast.RangeStmt:
+				loopVar := ""
+				if id, ok := v.Value.(*ast.Ident); ok {
+					loopVar = id.Name
+				}
+				frame = append(frame, "range:"+c05CtlExpr(v.X, params, loopVar))
+				for _, inner := range v.Body.List {
+					is, ok := inner.(*ast.IfStmt)
+					if !ok || is.Init != nil || is.Else != nil {
+						frame = append(frame, "loop-other")
+						continue
+					}
+					for _, c := range c05Conjuncts(is.Cond) {
+						guard = append(guard, c05CtlExpr(c, params, loopVar))
+					}
+					ret := "?"
+					if len(is.Body.List) == 1 {
+						if rs, ok := is.Body.List[0].(*ast.ReturnStmt); ok && len(rs.Results) == 1 {
+							ret = c05CtlExpr(rs.Results[0], params, loopVar)
+						}
+					}
+					frame = append(frame, "loop-if-guard:return "+ret)
+				}
+			case *ast.IfStmt:
+				ret := "?"
+				if len(v.Body.List) == 1 {
+					if rs, ok := v.Body.List[0].(*ast.ReturnStmt); ok && len(rs.Results) == 1 {
+						ret = c05CtlExpr(rs.Results[0], params, "")
+					}
+				}
+				frame = append(frame, "if:"+c05CtlExpr(v.Cond, params, "")+":return "+ret)
+			case *ast.ReturnStmt:
+				for _, r := range v.Results {
+					frame = append(frame, "return:"+c05CtlExpr(r, params, ""))
+				}
+			default:
+				frame = append(frame, "other")
+			}
+		}
+	} else {
+		e.fail("reservation.MatchReservationControllerReference not found")
+	}
+	c05List(&e.out, "controllerRefFrame", frame)
+	c05List(&e.out, "controllerRefGuard", guard)
+
+	var drop []string
+	if fd := e.funcDecl("pkg/scheduler/frameworkext", "frameworkExtenderImpl", "RunReservePluginsReserve"); fd != nil && fd.Body != nil {
+		const sel = "DeleteNominatedReservePodOrReservation"
+		for _, st := range fd.Body.List {
+			switch v := st.(type) {
+			case *ast.IfStmt:
+				if c05Calls(v.Body, sel) != token.NoPos {
+					nested := false
+					for _, inner := range v.Body.List {
+						if _, ok := inner.(*ast.ExprStmt); !ok {
+							nested = true
+						}
+					}
+					if nested || v.Else != nil {
+						drop = append(drop, "drop-nested")
+					} else {
+						drop = append(drop, "drop-if:"+c05Shape(v.Cond))
+					}
+				} else {
+					drop = append(drop, "if:"+c05Shape(v.Cond)+":"+c05Leaves(v))
+				}
+			case *ast.ExprStmt:
+				if c05Calls(v, sel) != token.NoPos {
+					drop = append(drop, "drop")
+				}
+			case *ast.ReturnStmt:
+				drop = append(drop, "return")
+			}
+		}
+	} else {
+		e.fail("frameworkExtenderImpl.RunReservePluginsReserve not found")
+	}
+	c05List(&e.out, "reserveNominationDrop", drop)
 }
